@@ -1996,7 +1996,7 @@ def relational(ctx, pool, programs):
                 ctx.fail(sg, f'{op} on {lab} [{str(mol)}]: {check}: {detail}',
                          {'kind': 'dipole', 'wire': ints, 'seed': seed_smi, 'smiles': str(mol)})
     # non-default keyword options of the public operations
-    op_budget = time.time() + (20 if ctx.quick else 200)
+    op_budget = time.time() + (20 if ctx.quick else 150)
     opt_order = sorted(range(len(pool)), key=lambda i: 0 if pool[i][0].startswith(('azolium:', 'extra:', 'hetpair:', 'ion:', 'hand:')) else 1)
     for j, i in enumerate(opt_order):
         if time.time() > op_budget:
@@ -2029,7 +2029,7 @@ def relational(ctx, pool, programs):
                 for sg in signature(ints, op, check, True):
                     ctx.fail(sg, f'{op} on {lab} [{str(mol)}]: {check}: {detail}',
                              {'kind': 'twice', 'op': op, 'wire': ints, 'smiles': str(mol)})
-    budget = 55 if ctx.quick else 600
+    budget = 55 if ctx.quick else 480
     t0 = time.time()   # the generic loop has its own budget
     order = list(range(len(pool)))
     ctx.rng.shuffle(order)
